@@ -253,7 +253,19 @@ def _mutdefault(ctx):
     ctx.floor("mutable default arguments", n_defaults, 0)
 
 
+_INITS_CACHE = {}
+
+
 def _import_time_inits(ctx):
+    """memoised per index (two rules of one run ask for it)"""
+    key = id(ctx.index)
+    if key not in _INITS_CACHE:
+        _INITS_CACHE.clear()
+        _INITS_CACHE[key] = _import_time_inits_uncached(ctx)
+    return _INITS_CACHE[key]
+
+
+def _import_time_inits_uncached(ctx):
     """
     {qual: [(Mod, Call, [specialised statements])]} — top-level functions whose only references are module-level
     calls in their own module and whose body partially evaluates to straight-line statements for those calls:
